@@ -204,7 +204,71 @@ def run_addpath_vector(i, v):
     return line
 
 
+def run_mp_vector(i, v):
+    """MP_REACH / MP_UNREACH vectors of the families yabgp both encodes and decodes (C07, C08)"""
+    ref = bytes(v['b'])
+    n = len(v['routes'])
+    def tag(r):
+        f = v['fam']
+        if f == 'ipv6':
+            return 'l%d' % r['l']
+        if f in ('lu4', 'lu6'):
+            return 'lab%s.l%d' % ('+'.join(map(str, r['labels'])), r['p']['l'])
+        if f in ('vpn4', 'vpn6'):
+            return 'lab%d.rd%d.l%d' % (r['label'], r['rd'][0], r['p']['l'])
+        if f == 'evpn':
+            x = r[1]
+            return 't%d.esi%s.ip%d' % (r[0], x['esi'][0] if 'esi' in x else '-', len(x.get('ip', [])))
+        return 'c' + '.'.join(str(c[0]) + ('' if c[0] in (1, 2) else 'x%d' % len(c[1])) for c in r)
+    cls = '%s-%s-%s' % (v['fam'], 'reach' if v['reach'] else 'unreach', ','.join(tag(r) for r in v['routes']))
+    # traits that known findings are keyed on
+    if v['fam'] in ('lu4', 'lu6') and v['reach'] and any(r['labels'][-1] == 0 for r in v['routes']):
+        cls = '%s-reach-lastlabel0' % v['fam']
+    if v['fam'] == 'ipv6' and len(v['routes']) >= 2 and all(r['l'] == 0 for r in v['routes'][-2:]):
+        cls = 'ipv6-%s-ends-with-two-default-routes' % ('reach' if v['reach'] else 'unreach')
+    line = {'id': i, 'kind': 'mp', 'cls': cls, 'asn4': True, 'ref': list(ref), 'impl': [],
+            'raised': False, 'none': False, 'rt_ok': False, 'dec_ok': False, 'dec_err': False, 'diff': '', 'ddiff': ''}
+    t, vin, vout = M.mp_in_out(v)
+    base_in = {1: 0, 2: [(2, [65001])]} if v['reach'] else {}
+    exp_attr = dict(base_in)
+    exp_attr[t] = vout
+    exp = {'attr': exp_attr, 'nlri': [], 'withdraw': []}
+    try:
+        d = Update.parse(0, ref[19:], True)
+        dd = diff(exp, d)
+        if d.get('sub_error'):
+            dd = dd or 'sub_error=%r' % (d['sub_error'],)
+        line['dec_ok'] = dd == ''
+        line['ddiff'] = dd[:300]
+    except Exception as e:
+        line['ddiff'] = 'raised %r' % (e,)
+    inp = dict(base_in)
+    inp[t] = vin
+    try:
+        impl = Update.construct({'attr': inp}, True)
+    except Exception as e:
+        line['raised'] = True
+        line['diff'] = 'construct raised %r' % (e,)
+        return line
+    if impl is None:
+        line['none'] = True
+        return line
+    line['impl'] = list(impl)
+    try:
+        d = Update.parse(0, impl[19:], True)
+        dd = diff(exp, d)
+        if d.get('sub_error'):
+            dd = dd or 'sub_error=%r' % (d['sub_error'],)
+        line['rt_ok'] = dd == ''
+        line['diff'] = dd[:300]
+    except Exception as e:
+        line['diff'] = 'parse raised %r' % (e,)
+    return line
+
+
 def run_vector(i, v):
+    if v['kind'] == 'mp':
+        return run_mp_vector(i, v)
     if v['kind'] == 'updap':
         return run_addpath_vector(i, v)
     if v['kind'] in ('upd', 'updvar', 'cor'):
